@@ -46,7 +46,7 @@ def run_case(case):
         a = A
         mult = want
         if a is None:
-            r, err, st = D.exhaust(p.spec, strat, CAP, 20)
+            r, err, st = D.exhaust(p.spec, strat, CAP, 12)
             if st != "ok" or err:
                 counters["%s_%s" % (strat.lower(), st if st != "ok" else "raised")] = 1
                 continue
@@ -56,7 +56,7 @@ def run_case(case):
             continue
         reqs = sorted(set(x for x in (0, 1, 2, a - 1, a, a + 1, 3 * a) if x >= 0))
         for req in reqs:
-            r, err, st = D.run_strategy(p.spec, strat, req, 20)
+            r, err, st = D.run_strategy(p.spec, strat, req, 12)
             if st != "ok" or err:
                 counters["%s_%s" % (strat.lower(), st if st != "ok" else "raised")] = 1
                 continue
